@@ -162,6 +162,11 @@ def apply_contra(tr, kind, a, b):
     if kind == "nocpus":
         for x in same_loom:
             x["cpus"] = None
+            # its threads run on the virtual CPU only, so that nothing but the missing CPU list is wrong
+            for e in x.get("events", []):
+                if e[0] in ("OHx", "OAs") and len(e[2]) >= 8:
+                    e[2] = "ffffffff" + e[2][8:]
+            x["events"] = [e for e in x.get("events", []) if e[0] != "OAr"]
         return "loom without cpus"
     if kind == "emptycpus":
         s["cpus"] = []
